@@ -44,8 +44,8 @@ void UncompressedFile::read(char * s, std::streamsize n) {
     if (n + m_tellg > m_fileSize) {
         n = m_fileSize - m_tellg;
         m_rdstate = std::ios_base::eofbit | std::ios_base::failbit;
-    } else
-        m_rdstate = std::ios_base::goodbit;
+    } else if (n > 0)
+        m_rdstate = std::ios_base::goodbit; /* a zero-length read does not clear an earlier failure */
 
     /* read data */
     m_gcount = 0;
